@@ -583,10 +583,14 @@ func main() {
 			"SELECT id, LEAD(x, 1, 0) OVER (ORDER BY id) FROM t",
 			"SELECT t.id, u.a, u.v FROM t LEFT JOIN u ON t.a = u.a",
 			"SELECT a FROM t UNION SELECT n FROM u",
+			"SELECT g, MAX(x), MIN(x), SUM(x) FROM t GROUP BY g",
+			"SELECT u.a, COUNT(t.id), SUM(t.x) FROM u LEFT JOIN t ON t.a = u.a GROUP BY u.a",
+			"SELECT t.id, u.id, u.v, t.s FROM t RIGHT JOIN u ON t.a = u.a",
+			"SELECT q.m, q.c FROM (SELECT MAX(x) AS m, COUNT(*) AS c FROM t WHERE id > 100) q",
 		} {
 			run(c, caseT{Kind: "sql", Setup: append(append([]string(nil), mixSetup...), mixRows...), SQL: q})
 		}
-		for i := 8; i < c.N; i++ {
+		for i := 12; i < c.N; i++ {
 			r := c.R.Fork()
 			if r.Bool() {
 				n := r.Range(1, 4)
